@@ -188,6 +188,12 @@ CLI_LAYOUTS = [
     ({"a.mac": "\t.link 1000\nstart:\t.repeat 2 {\n\tmov #start, r0\nmake_wav \"t\" <60 + <.-start>/4> \".wav\", \"N\" <100 + <.-start>/4>\n\t}\n"}, ".", ["a.mac"],
      {"t1.wav": ("bk_wav", "NA"), "t2.wav": ("bk_wav", "NB")}, "", b"\xc0\x15\x00\x02" * 2),
     ({"a.mac": "\t.link 1000\nstart:\tmov #start, r0\nmake_bin \"o\" <60 + n> \".bin\"\nn = 5\n"}, ".", ["a.mac"], {"o5.bin": ("bin", None)}, "", b"\xc0\x15\x00\x02"),
+    # a source whose name does not end in .mac: the default output name must never be the source itself
+    ({"prog.s": SRC + "make_raw\n"}, ".", ["prog.s"], None),
+    ({"prog": SRC + "make_raw\n"}, ".", ["prog"], None),
+    ({"a.mac": SRC + "\t.include \"defs.inc\"\n", "defs.inc": "make_raw\n"}, ".", ["a.mac"], None),
+    ({"prog.s": SRC + "make_bin\n"}, ".", ["prog.s"], {"prog.s.bin": ("bin", None)}),
+    ({"prog.s": SRC + "make_wav\n"}, ".", ["prog.s"], {"prog.s.wav": ("bk_wav", "prog.s")}),
     # standard output as the output "path" and standard input as the source
     ({"a.mac": SRC}, ".", ["a.mac", "-o", "-"], {"<stdout>": ("raw", None)}),
     ({"a.mac": SRC}, ".", ["a.mac", "-o-.bin"], {"<stdout>": ("bin", None)}),
@@ -255,7 +261,7 @@ def check(case, r, tier):
         return
     if k == "cli-layout":
         # replay of one recorded layout
-        want = {p: tuple(tuple(x) if isinstance(x, list) else x for x in v) for p, v in case["want"].items()}
+        want = None if case["want"] is None else {p: tuple(tuple(x) if isinstance(x, list) else x for x in v) for p, v in case["want"].items()}
         run_cli(r, case["tree"], case["cwd"], case["argv"], want, case.get("base", 0o1000), bytes.fromhex(case["image"]) if "image" in case else IMG,
                 None, stdin_text=case.get("stdin", ""))
         return
@@ -264,9 +270,19 @@ def check(case, r, tier):
 
 def run_cli(r, tree, cwd, argv, want, base, image, key, stdin_text=""):
     out = driver.cli(argv, tree, cwd=cwd, keep=True, stdin_text=stdin_text)
-    case = {"k": "cli-layout", "tree": tree, "cwd": cwd, "argv": argv, "stdin": stdin_text, "base": base, "image": image.hex(), "want": {p: list(v) if isinstance(v, tuple) else v for p, v in want.items()}}
+    case = {"k": "cli-layout", "tree": tree, "cwd": cwd, "argv": argv, "stdin": stdin_text, "base": base, "image": image.hex(), "want": None if want is None else {p: list(v) if isinstance(v, tuple) else v for p, v in want.items()}}
     try:
         probs = []
+        if want is None:
+            # no output is well defined here; whatever happens, no existing file may be modified
+            if out.modified() or out.deleted():
+                probs.append(("sources-touched", "existing files changed: %s %s" % (out.modified(), out.deleted())))
+            if out.internal_error or out.exit not in (0, 1):
+                probs.append(("cli-exit", "exit status %r" % (out.exit,)))
+            r.ran("ok" if not probs else "bad", key=key)
+            for sig, what in probs[:2]:
+                r.violation("cli:" + sig, what, case, "no existing file modified", sorted(out.created()))
+            return
         if out.exit != 0:
             probs.append(("cli-exit", "exit status %r, stderr: %s" % (out.exit, out.stderr[-300:])))
         created = set(out.created())
